@@ -37,6 +37,10 @@ def param_field(e, params, env=None):
     return None
 
 
+class CrossField(Exception):
+    """the comparator relates different fields of its two operands"""
+
+
 class Lossy(Exception):
     """the comparator orders a field through a helper that identifies distinct values (a witness is in the message)"""
 
@@ -95,6 +99,9 @@ class Cmp:
 
     def rel(self, a, b, sigma):
         pa, pb = param_field(a, self.params, self.env), param_field(b, self.params, self.env)
+        if pa is not None and pb is not None and pa[1] and pb[1] and pa[1] != pb[1] and pa[0] != pb[0]:
+            raise CrossField('%s of one operand is compared with %s of the other: for a single element x the test "x.%s against x.%s" need not be false, so the '
+                             'relation is not irreflexive - not a strict weak order (undefined behaviour in the standard algorithm, and a wrong winner)' % (pa[1], pb[1], pa[1], pb[1]))
         if pa is None or pb is None or pa[1] != pb[1] or pa[0] == pb[0]:
             raise Unsupported('comparison of %s with %s is not field-wise' % (show(a), show(b)))
         r = sigma[pa[1]]
